@@ -82,6 +82,96 @@ Proof.
   - rewrite <- E, digits_val_hex_fixed. f_equal. rewrite N.mod_small by assumption. lia.
 Qed.
 
+(* ---------- Go's padded hex = fixed-width hex ---------- *)
+Lemma repeat_snoc {A} (a : A) k : repeat a k ++ [a] = a :: repeat a k.
+Proof. induction k as [|k IH]; [reflexivity|]. cbn [repeat app]. now rewrite IH. Qed.
+
+Lemma hex_fixed_zero k : hex_fixed k 0 = repeat x30 k.
+Proof.
+  induction k as [|k IH]; [reflexivity|]. cbn [hex_fixed]. change (0 / 16) with 0. change (0 mod 16) with 0.
+  rewrite IH. change (hexdig 0) with x30. now rewrite repeat_snoc.
+Qed.
+
+Lemma hex_fixed_pad n : forall k r, r < 16 ^ N.of_nat n -> hex_fixed (k + n) r = repeat x30 k ++ hex_fixed n r.
+Proof.
+  induction n as [|n IH]; intros k r Hr.
+  - change (16 ^ N.of_nat 0) with 1 in Hr. assert (r = 0) by lia. subst.
+    rewrite Nat.add_0_r, hex_fixed_zero. cbn [hex_fixed]. now rewrite app_nil_r.
+  - rewrite Nat.add_succ_r. cbn [hex_fixed]. rewrite IH, app_assoc; [reflexivity|].
+    rewrite Nat2N.inj_succ, N.pow_succ_r' in Hr. apply N.div_lt_upper_bound; lia.
+Qed.
+
+(* number of hex digits as the Go code computes it from bits.Len32 *)
+Definition ndig (r : N) : nat := S (N.to_nat ((N.size r - 1) / 4)).
+
+Lemma size_m1 r : r <> 0 -> N.size r - 1 = N.log2 r.
+Proof. intros H. rewrite N.size_log2 by exact H. lia. Qed.
+
+Lemma ndig_small r : r < 16 -> ndig r = 1%nat.
+Proof.
+  intros H. unfold ndig. destruct (N.eq_dec r 0) as [->|Hz]; [reflexivity|].
+  rewrite size_m1 by exact Hz.
+  assert (N.log2 r < 4) by (apply N.log2_lt_pow2; [lia|exact H]).
+  replace (N.log2 r / 4) with 0 by (symmetry; apply N.div_small; assumption). reflexivity.
+Qed.
+
+Lemma ndig_step r : 16 <= r -> ndig r = S (ndig (r / 16)).
+Proof.
+  intros H. unfold ndig.
+  assert (Hq : 1 <= r / 16) by (apply N.div_le_lower_bound; lia).
+  rewrite !size_m1 by lia.
+  assert (Hl : N.log2 (r / 16) = N.log2 r - 4).
+  { change 16 with (2 ^ 4). rewrite <- N.shiftr_div_pow2. apply N.log2_shiftr. }
+  assert (4 <= N.log2 r) by (apply N.log2_le_pow2; [lia|exact H]).
+  rewrite Hl. f_equal.
+  replace (N.log2 r) with ((N.log2 r - 4) + 1 * 4) at 1 by lia.
+  rewrite N.div_add by discriminate. lia.
+Qed.
+
+Lemma fmt_hex_fixed : forall fuel r, r < 16 ^ N.of_nat (S fuel) -> fmt_base_fuel fuel 16 r = hex_fixed (ndig r) r.
+Proof.
+  induction fuel as [|fuel IH]; intros r Hr.
+  - change (16 ^ N.of_nat 1) with 16 in Hr. rewrite ndig_small by exact Hr. reflexivity.
+  - cbn [fmt_base_fuel]. destruct (r <? 16) eqn:E.
+    + rewrite ndig_small by lia. cbn [hex_fixed app]. now rewrite N.mod_small by lia.
+    + rewrite ndig_step by lia. cbn [hex_fixed]. f_equal. apply IH.
+      rewrite (Nat2N.inj_succ (S fuel)), N.pow_succ_r' in Hr. apply N.div_lt_upper_bound; lia.
+Qed.
+
+Lemma ndig_bound : forall w r, (0 < w)%nat -> r < 16 ^ N.of_nat w -> (ndig r <= w)%nat.
+Proof.
+  induction w as [|w IH]; intros r Hw Hr; [lia|].
+  destruct (r <? 16) eqn:E; [rewrite ndig_small by lia; lia|].
+  rewrite ndig_step by lia.
+  destruct w as [|w]; [change (16 ^ N.of_nat 1) with 16 in Hr; lia|].
+  apply le_n_S, IH; [lia|].
+  rewrite (Nat2N.inj_succ (S w)), N.pow_succ_r' in Hr. apply N.div_lt_upper_bound; lia.
+Qed.
+
+Lemma lt_pow16_ndig : forall n r, ndig r = n -> r < 16 ^ N.of_nat n.
+Proof.
+  induction n as [|n IH]; intros r H; [unfold ndig in H; discriminate|].
+  destruct (r <? 16) eqn:E.
+  - rewrite Nat2N.inj_succ, N.pow_succ_r'.
+    assert (0 < 16 ^ N.of_nat n) by (apply N.neq_0_lt_0, N.pow_nonzero; discriminate). nia.
+  - rewrite ndig_step in H by lia. injection H as H. apply IH in H.
+    rewrite Nat2N.inj_succ, N.pow_succ_r'.
+    pose proof (N.div_mod r 16 ltac:(discriminate)). pose proof (N.mod_lt r 16 ltac:(discriminate)). nia.
+Qed.
+
+Theorem go_hex_eq w r : (0 < w)%nat -> r < 16 ^ N.of_nat w -> go_hex_pad w r = hex_fixed w r.
+Proof.
+  intros Hw Hr. unfold go_hex_pad, fmt_base. fold (ndig r).
+  pose proof (ndig_bound w r Hw Hr) as Hb.
+  rewrite fmt_hex_fixed.
+  - replace w with ((w - ndig r) + ndig r)%nat at 2 by lia.
+    rewrite hex_fixed_pad; [reflexivity|]. now apply lt_pow16_ndig.
+  - rewrite Nat2N.inj_succ, N2Nat.id, N.pow_succ_r'.
+    assert (r < 2 ^ N.size r) by apply N.size_gt.
+    assert (2 ^ N.size r <= 16 ^ N.size r) by (apply N.pow_le_mono_l; lia).
+    assert (0 < 16 ^ N.size r) by (apply N.neq_0_lt_0, N.pow_nonzero; discriminate). nia.
+Qed.
+
 (* ---------- parse_escape on what the encoder writes ---------- *)
 Lemma pe_quote t : parse_escape x22 t = EscOk [x22] t. Proof. reflexivity. Qed.
 Lemma pe_bslash t : parse_escape x5c t = EscOk [x5c] t. Proof. reflexivity. Qed.
@@ -283,6 +373,7 @@ Proof.
     replace (b2n b0 =? 34) with false by lia. replace (b2n b0 =? 92) with false by lia.
     replace (b2n b0 =? 10) with false by lia. replace (b2n b0 =? 13) with false by lia.
     replace (b2n b0 =? 9) with false by lia.
+    rewrite go_hex_eq by (try lia; change (16 ^ N.of_nat 2) with 256; lia).
     split; [lia|]. split; [lia|]. split.
     + intros _. constructor; [vm_compute; split; discriminate|].
       constructor; [vm_compute; split; discriminate|]. apply hex_fixed_printable.
@@ -320,7 +411,8 @@ Proof.
         intros f t. cbn [app]. rewrite parse_loop_S by discriminate.
         rewrite dec_step_bslash by (vm_compute; discriminate). rewrite pe_t.
         cbn [firstn]. rewrite (n2b_of_b2n_eq b0 9) by lia. reflexivity.
-      * split.
+      * rewrite go_hex_eq by (try lia; change (16 ^ N.of_nat 2) with 256; lia).
+        split.
         { intros _. constructor; [vm_compute; split; discriminate|].
           constructor; [vm_compute; split; discriminate|]. apply hex_fixed_printable. }
         intros f t. cbn [app]. rewrite parse_loop_S by discriminate.
@@ -331,14 +423,16 @@ Proof.
         assert (Hr : 128 <= r0) by lia.
         split; [lia|]. unfold esc_unicode.
         destruct (r0 <=? 65535) eqn:E16.
-        -- split; [cbn [length]; lia|]. split.
+        -- rewrite go_hex_eq by (try lia; change (16 ^ N.of_nat 4) with 65536; lia).
+           split; [cbn [length]; lia|]. split.
            { intros _. constructor; [vm_compute; split; discriminate|].
              constructor; [vm_compute; split; discriminate|]. apply hex_fixed_printable. }
            intros f t. cbn [app]. rewrite parse_loop_S by discriminate.
            rewrite dec_step_bslash by (vm_compute; discriminate).
            rewrite pe_u by (lia || assumption).
            rewrite (encode_decode_rune (b0 :: t0) r0 n) by (discriminate || assumption). reflexivity.
-        -- split; [cbn [length]; lia|]. split.
+        -- rewrite go_hex_eq by (try lia; change (16 ^ N.of_nat 8) with 4294967296; unfold max_rune in Hmax; lia).
+           split; [cbn [length]; lia|]. split.
            { intros _. constructor; [vm_compute; split; discriminate|].
              constructor; [vm_compute; split; discriminate|]. apply hex_fixed_printable. }
            intros f t. cbn [app]. rewrite parse_loop_S by discriminate.
